@@ -18,3 +18,4 @@ pub mod refmodel;
 pub mod h_c09;
 pub mod h_ser;
 pub mod h_vm;
+pub mod h_print;
